@@ -5001,6 +5001,79 @@ def r_json_reordering(P, R):
 r_json_reordering.NAME = 'R-REORD(json switch model)'
 
 
+def configure_model(P, R):
+    """`BDD.configure(**kw)` interpreted for every listing order of a
+    valid and an unknown parameter.  C17: a call that is refused (unknown
+    parameter) leaves the reordering switch as it was; C09: an accepted
+    call reports the switch as it was and sets it as asked."""
+    import itertools
+    f = P.func('dd.bdd.BDD.configure')
+    stubs = ClassStubs(P, 'dd.bdd.BDD')
+    resolver = interp.ModuleEnv(P, 'dd.bdd', stubs)
+    kwname = f.node.args.kwarg.arg if f.node.args.kwarg else None
+    if kwname is None:
+        return None
+    problems = dict()
+    n = 0
+    try:
+        for last_len in (None, 100):
+            for kw in ({'reordering': True}, {'reordering': False}, {},
+                       {'bogus': 1}, {'reordering': True, 'bogus': 1},
+                       {'bogus': 1, 'reordering': True},
+                       {'reordering': False, 'bogus': 1},
+                       {'bogus': 1, 'reordering': False}):
+                n += 1
+                base, _ = _build_manager(['a', 'b'], [], [])
+                obj = _object_manager(copy.deepcopy(
+                    {k: v for k, v in base.items() if k != 'self'}))
+                obj.attrs['_last_len'] = last_len
+                out, _ = interp.run_function(
+                    f.node, {'self': obj, kwname: dict(kw)}, stubs,
+                    resolver)
+                what = (f'configure(**{kw}) with reordering '
+                        f'{"on" if last_len is not None else "off"}')
+                now = obj.attrs.get('_last_len')
+                if 'bogus' in kw:
+                    if out[0] != 'raise':
+                        problems.setdefault('accepts-unknown', (
+                            f'{what} is accepted'))
+                    elif (now is None) != (last_len is None):
+                        problems.setdefault('refused-but-applied', (
+                            f'{what} is refused ({out[1]}) but leaves '
+                            'reordering '
+                            f'{"on" if now is not None else "off"}'))
+                    continue
+                if out[0] != 'return' or not isinstance(out[1], dict) or \
+                        out[1].get('reordering') is not (
+                            last_len is not None):
+                    problems.setdefault('report', (
+                        f'{what}: {out[0]} {out[1]!r}, not the switch as '
+                        'it was'))
+                elif 'reordering' in kw and (now is not None) is not \
+                        kw['reordering']:
+                    problems.setdefault('not-applied', (
+                        f'{what} leaves reordering '
+                        f'{"on" if now is not None else "off"}'))
+    except (interp.Unknown, KeyError) as e:
+        R.undecided('R-RAW', f.qualname, 'parameter model', str(e))
+        return None
+    for sub, msg in sorted(problems.items()):
+        R.violation('R-RAW', f'configure-{sub}', f.qualname, 'configure',
+                    msg, unit=f.unit.rel, line=f.lineno)
+    if not problems:
+        R.holds('R-RAW', f.qualname,
+                f'parameter model ({n} calls): a refused call changes '
+                'nothing, an accepted one reports and sets the switch')
+    return n
+
+
+def r_configure(P, R):
+    n = configure_model(P, R)
+    if n is not None:
+        R.floor('R-RAW calls of the parameter model', n, 12)
+r_configure.NAME = 'R-RAW(configure model)'
+
+
 def dot_model(P, R):
     """`dd.bdd._to_dot(roots, bdd)` interpreted (with `dd._utils.DotGraph`)
     on small managers: the graph it builds must show, for every node
